@@ -469,6 +469,8 @@ const HELPERS: &str = r#"
                       acc))))
 (define (c19-mv n acc)
   (if (= n 0) acc (c19-mv (- n 1) (make-vector 1 acc))))
+(define (c19-lv n acc)
+  (if (= n 0) acc (c19-lv (- n 1) (list->vector (list acc)))))
 (define (c19-closures n prev)
   (if (= n 0) prev (c19-closures (- n 1) (lambda () (+ 1 (prev))))))
 (define (c19-conts n prev)
@@ -826,6 +828,9 @@ fn run_data(scn: &Scn, pattern: &[Lv], leaf: &str) -> Result<String, String> {
                             eval_all(&mut vm, &format!("(define xm (c19-mv {} '()))", n))?;
                             let d = eval_all(&mut vm, "(c19-descend xm 0)")?;
                             note = format!("{} make-vector-levels={:#}", note, d);
+                            eval_all(&mut vm, &format!("(define xl (c19-lv {} '()))", n))?;
+                            let d = eval_all(&mut vm, "(c19-descend xl 0)")?;
+                            note = format!("{} list->vector-levels={:#}", note, d);
                         }
                     }
                 }
@@ -839,13 +844,13 @@ fn run_data(scn: &Scn, pattern: &[Lv], leaf: &str) -> Result<String, String> {
                     note = format!("{} levels-after-collect={:#}", nat, d);
                     if scn.dir == "vector" {
                         phase("setup:build");
-                        eval_all(&mut vm, &format!("(define xm (c19-mv {} '()))", n))?;
+                        eval_all(&mut vm, &format!("(define xm (c19-mv {} '())) (define xl (c19-lv {} '()))", n, n))?;
                         phase("gc:collect");
                         vm.verif_force_gc();
                         vm.verif_force_gc();
                         phase("gc:use-after-collect");
-                        let d = eval_all(&mut vm, "(c19-descend xm 0)")?;
-                        note = format!("{} make-vector-levels-after-collect={:#}", note, d);
+                        let d = eval_all(&mut vm, "(+ (c19-descend xm 0) (c19-descend xl 0))")?;
+                        note = format!("{} make-vector+list->vector-levels-after-collect={:#}", note, d);
                     }
                 }
                 "equal?" => {
